@@ -19,7 +19,7 @@ EXPLANATION = (
     '(C07.R2 + C07.R3 re-evaluated), without which nothing is refreshed.'
 )
 ASSUMPTIONS = ["asyncio.timeout/reschedule semantics as documented"]
-FLOORS = {"C14.R1": 8, "C14.R2": 3, "C14.R3": 8, "C14.R4": 4, "C14.R5": 1}
+FLOORS = {"C14.R1": 8, "C14.R2": 3, "C14.R3": 8, "C14.R4": 4, "C14.R5": 1, "C14.R6": 1}
 
 
 def run(ctx):
@@ -30,6 +30,9 @@ def run(ctx):
     from . import c07
     from .common import reuse
 
+    from . import c01
+
+    reuse(ctx, "C14.R6", [c01.r3], "the refresh requests queued on reconnection are written: the queue is drained after every connect and the drain can always start (C01.R3)")
     reuse(ctx, "C14.R5", [c07.r2, c07.r3], "after a connection loss the client reconnects (C07.R2 reset, C07.R3 retry), which is what triggers the refresh")
 
 
